@@ -187,7 +187,7 @@ class HeapMixin(object):
         if oid is None:
           raise Unsupported('python-side field %s on symbolic reference' % name)
         return st.pyheap.get((oid, name))
-      arr = st.harr((owner, name), kind.sort())
+      arr = st.harr((owner, name), kind.sort(), is_ref=kind.tag in ('ref', 'exc', 'list', 'dict', 'set', 'tuple'))
       v = self.wrap(st, z3.Select(arr, obj.t), kind)
       return v
     if oid is not None:
@@ -265,7 +265,7 @@ class HeapMixin(object):
 
   def dict_keys(self, st, d):
     """Ghost list object holding the keys in insertion order (ref)."""
-    return VRef('list', z3.Select(st.harr(('dict', 'keys'), I), d.t), elem=getattr(d, 'keykind', None))
+    return VRef('list', z3.Select(st.harr(('dict', 'keys'), I, is_ref=True), d.t), elem=getattr(d, 'keykind', None))
 
   def dict_set_raw(self, st, d, dom=None, val=None, keys=None):
     if dom is not None:
